@@ -34,12 +34,12 @@ META = {
     "C04": dict(
         technique="stateful property-based testing (rapid-generated histories as pure data) with a conservation ledger kept by the harness from what it fed in, evaluated over bank, ERC-20 and crosschain stores after every step, plus exact per-account deltas per operation",
         text="Exploration: generated histories through all three doors (Cosmos messages, precompile calls, oracle claims) over FX, a module-owned multi-chain pair and an externally-owned pair on three chains; after every step held + in-flight + pending-inbound = initial + observed deposits - withdrawals observed as executed per token, and every tracked account's holdings move by exactly what the operation states.",
-        note="The harness is the external chain (admissible events only). Two genuine defects of this snapshot are recorded in known_findings.json and excluded by construction (counted in the evidence).",
+        note="The harness is the external chain (admissible events only). Also checked: per-chain backing of the multi-chain token and a final probe (every queued transfer cancelled, every holder sends all they hold, everything that left a home chain returns). One genuine defect of this snapshot (bridge-call refunds parking the bridge denomination in the erc20 conversion pool) is recorded in known_findings.json and excluded by construction (counted in the evidence).",
     ),
     "C05": dict(
         technique="model-based stateful property-based testing (rapid): reference model of pool / batches / outgoing calls compared with the decoded stores after every generated operation; releases are observed and validated rather than predicted",
         text="Exploration: each generated step's resulting pool, batches and bridge-call records must equal the model (every id in exactly one place, fields as supplied, ids increasing), settlements pay exactly amount+fee once to the creator, only the creator can cancel, cancelled or superseded batches return their transfers unchanged, and a call whose external execution was observed is never refunded.",
-        note="Same machine as C04/C06.",
+        note="Same machine as C04/C06. Refunds must come back in the form they were paid in (coins for a Cosmos message, ERC-20 for the precompile).",
     ),
     "C06": dict(
         technique="stateful property-based testing (rapid) with the harness acting as a model of the external bridge contract (height < timeout, increasing batch nonce); boundary heights timeout-1 / timeout / timeout+1 generated explicitly; invariant over the history",
@@ -49,7 +49,7 @@ META = {
     "C11": dict(
         technique="stateful property-based testing (rapid) of the staking precompile through real EVM transactions (EOAs and a hand-assembled interpreter contract), with exact per-transfer oracles and all registered crisis invariants evaluated after every step",
         text="Exploration: generated delegate / undelegate / redelegate / withdraw / approve / transfer / transferFrom histories (self-transfers, partial and off-by-one amounts) interleaved with real reward allocation and slashing; shares move exactly, validators are untouched by transfers, rewards are paid, delegations sum to validator shares, the SDK's staking / distribution / bank / gov invariants hold at every step and everybody can exit at the end.",
-        note="Reward allocation and slashing are the SDK keepers' own functions called at message level.",
+        note="Reward allocation and slashing are the SDK keepers' own functions called at message level. After every allocation the increase of pending rewards must be proportional to shares for all delegators of a validator.",
     ),
     "C07": dict(
         technique="stateful property-based testing (rapid-generated histories) on a fresh real chain per case with real FinalizeBlock/Commit per block step; crash oracle (error or panic of block processing)",
@@ -59,12 +59,12 @@ META = {
     "C10": dict(
         technique="property-based testing (rapid) over (caller kind x EVM call kind x method x victim-aimed arguments x governance switch setting) through real EVM transactions and a hand-assembled interpreter contract; portfolio-monotonicity oracle for every non-caller account and a differential against a no-op transaction for calls that must fail",
         text="Exploration: each generated case performs one precompile call on a state where victims hold delegations, accrued rewards, queued withdrawals and allowances; no account other than the direct caller may lose any component of its portfolio (except the allowed shares in transferFromShares, with exact allowance bookkeeping), state-changing methods fail under STATICCALL / DELEGATECALL / CALLCODE and under a governance switch covering the address or method, leaving the state identical to a no-op transaction.",
-        note="The direct caller is the EOA or the interpreter contract; tx.origin differs from it in the contract-via-victim cases.",
+        note="The direct caller is the EOA or the interpreter contract; tx.origin differs from it in the contract-via-victim cases. Allowances are compared with what the victim's last approval says (incl. revoked / lowered), not with the stored value.",
     ),
     "C09": dict(
         technique="property-based testing (rapid) over generated EVM call trees executed by a hand-assembled interpreter contract, with the gas limit enumerated as a fault point; metamorphic oracle: deleting every EVM-dropped sub-tree must not change the resulting multi-store dump or the logs",
         text="Fault enumeration: each generated tree (nested contracts, caught / propagated failures, reverting and invalid frames, all call kinds, all 12 state-changing precompile methods with valid and failing arguments) runs with ample gas and at a set of gas limits across 0..105 % of its gas use plus absolute boundary limits; failed transactions must equal a reverted no-op transaction, successful ones must equal the projection onto the frames the EVM kept - state, counters and logs.",
-        note="Outcome bits come from the EVM's own CALL success flags as returned by the interpreter contract.",
+        note="Outcome bits come from the EVM's own CALL success flags as returned by the interpreter contract. A difference confined to the converted token's storage (nested-EVM overlap, same root cause as the C08 findings) is a recorded known finding; panics that abort the whole transaction are tolerated, their conversion into a revert with surviving writes is not.",
     ),
     "C08": dict(
         technique="stateful property-based testing (rapid) of conversion histories plus generated single-contract EVM programs (interpreter contract) mixing token calls with converting precompile calls; conservation invariants over bank supply, ERC-20 storage and the erc20 module's indexes after every step",
